@@ -13,7 +13,7 @@ import (
 
 func init() {
 	checks["C05"] = checkC05
-	explanations["C05"] = "Structural necessary conditions (E1 must-pass + E2 tables): (1) in http.Handler the response body is CBOR-encoded only on paths where respType<=64, respType>=255 or Session.Encrypt err==nil (and the encoded value derives from Encrypt), (2) Responder.Respond is invoked only where msgType<=64, msgType>=255 or Session.Decrypt err==nil (and the decrypted bytes are what is passed on); (3) every Transport.Send site of the device/owner client roles passes a real session for types 66/68/70, kex.DecryptOnly for 64 and nil otherwise, and http.Transport encrypts before encoding / decrypts before returning whenever a session is given; (4) SessionCrypter.Decrypt reaches Encrypt0.Decrypt only if the suite has no MAC algorithm or Mac0.Digest err==nil and the received tag equals the recomputed tag; (5) Encrypt0.Decrypt succeeds only after the header algorithm equals the expected one and Crypter.Decrypt err==nil; (6) every Crypter.Encrypt implementation fills a freshly made IV buffer completely from its rand argument and uses exactly that buffer for the cipher and the IV header. The message-type constants are read from package protocol. Not decided: secrecy of keys, bit-flip coverage inside AES/HMAC, replay across sessions beyond per-session keys."
+	explanations["C05"] = "Structural necessary conditions (E1 must-pass + E2 tables): (1) in http.Handler the response body is CBOR-encoded only on paths where respType<=64, respType>=255 or Session.Encrypt err==nil (and the encoded value derives from Encrypt), (2) Responder.Respond is invoked only where msgType<=64, msgType>=255 or Session.Decrypt err==nil (and the decrypted bytes are what is passed on); (3) every Transport.Send site of the device/owner client roles passes a real session for types 66/68/70, kex.DecryptOnly for 64 and nil otherwise, and http.Transport encrypts before encoding / decrypts before returning whenever a session is given; (4) SessionCrypter.Decrypt reaches Encrypt0.Decrypt only if the suite has no MAC algorithm or Mac0.Digest err==nil and the received tag equals the recomputed tag; (5) Encrypt0.Decrypt succeeds only after the header algorithm equals the expected one and Crypter.Decrypt err==nil; (6) every Crypter.Encrypt implementation fills a freshly made IV buffer completely from its rand argument and uses exactly that buffer for the cipher and the IV header. The message-type constants are read from package protocol. Also: a byte slice zeroed by a non-deferred clear() is never read afterwards in the key-exchange, COSE, http and protocol packages (keys are not derived from zeroed secrets), and Mac0.Digest stores the recomputed tag as Sum(nil), a fresh buffer that cannot alias the received tag. Not decided: secrecy of keys, bit-flip coverage inside AES/HMAC, replay across sessions beyond per-session keys."
 }
 
 // constOf reads an integer constant from a module package.
